@@ -132,6 +132,25 @@ class Polys(Stream):
         for p, q in fixed:
             yield {"op": "mul", "p": p, "q": q, "n": 0, "x": 2}
             yield {"op": "pow", "p": p, "q": q, "n": 4, "x": 2}
+        # exact arithmetic has no word size: coefficients around 2**31 / 2**53 / 2**63 / 2**64 (and
+        # beyond), dense integer polynomials, and powers whose coefficients outgrow 64 bits
+        edges = [2**31 - 1, 2**31, 2**32 + 1, 2**53 + 1, 2**62, 2**63 - 1, 2**63, 2**64 + 3, 10**10,
+                 10**19, 10**30 + 7]
+        for _ in range(60 if tier == "quick" else 1500):
+            def big():
+                c = rng.choice(edges) + rng.randint(-2, 2)
+                return c if rng.random() < 0.6 else -c
+            dense = rng.random() < 0.7
+            def bpoly(k):
+                exps = list(range(k)) if dense else sorted(rng.sample(range(0, 9), k))
+                return [[e, big() if rng.random() < 0.5 else rng.randint(1, 9)] for e in exps]
+            pp, qq = bpoly(rng.randint(1, 4)), bpoly(rng.randint(1, 4))
+            yield {"op": rng.choice(["mul", "mul", "add", "sub", "divmod"]), "p": pp, "q": qq, "n": 0,
+                   "x": rng.randint(-3, 3), "big": True}
+        for n, base in [(67, [[0, 1], [1, 1]]), (40, [[0, 1], [1, 3]]), (33, [[0, -1], [1, 2], [2, 1]]),
+                        (2, [[0, 1], [1, 10**10]]), (3, [[0, 2**21], [1, 2**21 + 1]]),
+                        (5, [[0, 2**13], [1, -2**13], [2, 1]])]:
+            yield {"op": "pow", "p": base, "q": base, "n": n, "x": 1, "big": True}
         # a divisor with a STORED zero leading coefficient (`poly * 0` produces such data): the
         # division by it happens inside the loop, i.e. only when deg(self) >= deg(other)
         for _ in range(40 if tier == "quick" else 400):
